@@ -2,13 +2,34 @@ PROP = {
     "id": "C30",
     "coq_targets": ["Properties/C30.vo", "Extract/C30Extract.vo"],
     "properties_file": "Properties/C30.v",
-    "theorems": [],
+    "theorems": ["C30_fuel_suffices", "C30_no_panic", "C30_no_panic_l2hello",
+                 "C30_roundtrip_hello", "C30_roundtrip_lsp", "C30_roundtrip_csnp", "C30_roundtrip_psnp",
+                 "C30_new_csnps", "C30_new_psnps"],
     "allowed_axioms": [],
     "harness": "c30",
     "modelrun": {"name": "c30", "extracted": ["c30_model"], "driver": "ocaml/c30/c30_run.ml"},
-    "tiers": {"quick": {"cases": 4000}, "thorough": {"cases": 120000}},
-    "search_cases": 20000,
-    "rule": "",
-    "trusted_base": [],
-    "assumptions": [],
+    "tiers": {"quick": {"cases": 6000}, "thorough": {"cases": 150000}},
+    "search_cases": 30000,
+    "rule": "streams: D = packet.Decode on valid PDUs of every kind from a TLV grammar, mutated (TLV length/type bytes, "
+            "PDU type, truncation at every offset for some PDUs, random bytes, appended junk), raw random bytes and the "
+            "repository's fuzzing seeds; L = DecodeL2Hello; E = generated PDU values (every TLV struct that is a packet.TLV, "
+            "well-formed and deliberately inconsistent ones) serialized and decoded; K = LSPDU.UpdateLength+SetChecksum; "
+            "C/P = NewCSNPs/NewPSNPs over 0..200 LSP entries x maxPDULen -5..9000 (grid around 15/16 entries per TLV and the "
+            "per-PDU capacity). Non-trivial: D reaches a PDU body decoder (known PDU type, more than 11 bytes); L more than 19 "
+            "bytes; E/K the PDU has at least one TLV; C/P more than one PDU or more than 15 entries. distinct = distinct inputs",
+    "trusted_base": [
+        "extraction (ExtrOcamlBasic only) + ocaml/common/conv.ml + ocaml/c30/c30_run.ml (parser/printer of the canonical PDU text)",
+        "Go harness harness/cmd/c30 (grammar, mutators, canonical rendering of decoded structs, reference encoder of the "
+        "TLVs without a decoder, spec oracle)",
+        "modelled, not verified: bytes.Buffer.Read/ReadByte and encoding/binary.Read (io.ReadFull) semantics as described in "
+        "Model/ISISCodec.v; convert.Uint32Byte returns 4 bytes of a 64 byte zeroed array; sort.Slice as a stable insertion "
+        "sort (exact for fewer than 13 elements; for longer inputs the harness generates pairwise distinct sort keys); "
+        "int(math.Ceil(float64(a)/float64(b))) as integer ceiling division; Go int as unbounded; slices passed to "
+        "NewCSNPs/NewPSNPs have len == cap; no nil pointers inside PDU values",
+    ],
+    "assumptions": ["Go errors are one outcome (their texts are not compared)",
+                    "PDU values contain no nil TLV / nil LSP entry pointers"],
+    "explanation": "Decode totality and the round trips are Coq theorems about the byte-level model; the model is tied to "
+                   "protocols/isis/packet by running both on the same inputs and comparing the canonical rendering of every "
+                   "decoded PDU, the serialized bytes and the PDUs NewCSNPs/NewPSNPs build.",
 }
